@@ -74,6 +74,9 @@ MUTANTS = [
     ("kv-del-shard-error-not-reported", KV, "if v, e := node.DelCtx(ctx, key); e != nil {\n\t\t\tbe.Add(e)", "if v, e := node.DelCtx(ctx, key); e != nil {\n\t\t\t_ = e"),
     # connections (fourth round)
     ("seeded-client-options-shared-pointer", "PATCH", "/verif/seeded/C12/client-options-shared-pointer/patch.diff"),
+    # process configuration (fifth round)
+    ("seeded-reqerr-metric-label-arity", "PATCH", "/verif/seeded/C12/reqerr-metric-label-arity/patch.diff"),
+    ("seeded-scriptload-sha-memo-ignores-server", "PATCH", "/verif/seeded/C12/scriptload-sha-memo-ignores-server/patch.diff"),
     # kv
     ("kv-hdel-other-key", KV, "return node.HDelCtx(ctx, key, field)", "return node.HDelCtx(ctx, field, key)"),
     ("kv-get-wrong-node", KV, fn("GetCtx", "node, err := s.getRedis(key)", "node, err := s.getRedis(key + \"x\")")),
@@ -132,7 +135,7 @@ def main():
             continue
         if name == "kv-del-first-node-only":
             old, new = KV_DEL_OLD, KV_DEL_NEW
-        subprocess.run(["git", "-C", SCR, "checkout", "--", R, KV, "lib/store/redis/clientmanager.go"], check=True)
+        subprocess.run(["git", "-C", SCR, "checkout", "--", R, KV, "lib/store/redis"], check=True)
         try:
             if path == "PATCH":
                 subprocess.run(["git", "-C", SCR, "apply", old], check=True)
@@ -176,7 +179,7 @@ def main():
         evals = json.dumps(after)
         print("%-32s exit=%d %.0fs %s\n      %s" % (name, r.returncode, time.time() - t0, evals, rule or out[-300:]), flush=True)
         results.append((name, r.returncode, rule, evals))
-    subprocess.run(["git", "-C", SCR, "checkout", "--", R, KV, "lib/store/redis/clientmanager.go"], check=True)
+    subprocess.run(["git", "-C", SCR, "checkout", "--", R, KV, "lib/store/redis"], check=True)
     json.dump(results, open("/verif/.work/C12-mut-results.json", "a"))
 
 
